@@ -306,6 +306,28 @@ PROPS['C08'] = {
     'bounded': ['cli_unsupported'],
 }
 PROPS['C07']['units'].append('errgate')
+PROPS['C14'] = {
+    'units': ['imports', 'write'],
+    'title': 'imports of a generated module are sound and complete w.r.t. what the other modules define; one module per crate (import-table kernel)',
+    'technique': 'Verus contract on core/src/language/mod.rs::used_imports (the loop verbatim; the `.filter(P)` of the loop source as `if P`, P kept from '
+                 'the source; the closure `fallback` lifted into a function with its captured variables as parameters, T11) over stub containers with the '
+                 'std lookups specified; plus the module-per-crate clause of cli/src/writer.rs::write_multiple_files (unit write)',
+    'level_text': 'For every set of references collected from a crate (any order of the hash set), every table of the types the generated modules define '
+                  'and every current crate: the import table used_imports returns names, under a module, only types that module defines and never the '
+                  'current crate itself (soundness, including the re-export heuristic); and for every reference (crate c, name n) with c another '
+                  'crate that has a generated module: the named type is imported from c when c defines it, and all of c\'s types when the reference is a '
+                  'glob (completeness). write_multiple_files: each crate\'s module file holds exactly what was generated from that crate\'s data.',
+    'level_note': 'Kernel: the import TABLE. That the references / the per-crate type sets are what the sources say (syn UseTree and path walks, '
+                  'CrateName::find_crate_name over Path components), that the table is WRITTEN as import statements (TypeScript / Kotlin write_imports: '
+                  'text), the file names (output_file_name: format! in closures) and that the definitions equal single-file output are NOT proved: '
+                  'bounded stand-in cli_multifile on the real binary. Assumed: the entry-API statements record the pair(s) and change nothing else; '
+                  'the re-export search answers only (k, t) with t defined by k, named as the reference, k not the current crate (outlined iterator '
+                  'chain); HashSet / HashMap lookups as documented. Known finding carved out by input: Go writes a cross-crate struct payload of a '
+                  'tuple variant as value in folder mode and as pointer in single-file mode.',
+    'design_ref': 'DESIGN.md section 10.14',
+    'bounded': ['cli_multifile'],
+}
+PROPS['C07']['units'].append('imports')
 PROPS['C03']['bounded'] = ['merge', 'tos']
 PROPS['C06']['bounded'] = ['merge', 'cli_determinism']
 PROPS['C11']['bounded'] = ['topo', 'deps']
@@ -320,10 +342,6 @@ NOT_APPLICABLE = {
     'C10': 'syntactic well-formedness of a whole output file is a statement about the grammar of six target languages; contracts here can state '
            'fragments the property names (a type expression: C05, a member with its optional marker: C04, comment lines: C15) but not that a file '
            'parses - that needs the grammars as specification and a proof over every writer - see DESIGN.md section 6 and section 9',
-    'C14': 'the partition by crate is Path / OsStr component handling (find_crate_name), the import computation is HashSet iteration with BTreeMap '
-           'entry-API closures (used_imports) over data produced by syn::UseTree walks, and the import lines are text: after outlining what Verus '
-           'rejects nothing of the deciding logic remains; only write_multiple_files (each crate\'s module holds exactly what was generated for it) '
-           'is under contract, under C17 - see DESIGN.md section 6',
     'C19': 'the property quantifies over what rustc accepts and how serde_derive behaves on twin programs; typeshare\'s own share is a 30-line '
            'syn::DeriveInput walk in a proc-macro crate (syn / quote / proc_macro2: outside Verus, and the Kani compiler crashes on them) - see '
            'DESIGN.md section 6',
